@@ -69,17 +69,18 @@ example : exDef.frontAccepts = true ∧ (generate exDef).map (·.enumerators) = 
     (generate exDef).map (·.fromName) = some exGen.fromName ∧
     (generate exDef).map (·.ty) = some ⟨true, 8⟩ := by decide
 
-/-- **`TryToGetEnumFromName`.**  With pairwise distinct enumerator identifiers (see
-`C19_enumerators_distinct_partial`; without it the header does not compile) the function
+/-- **`TryToGetEnumFromName`.**  For an enum the back end accepts (so that the enumerator
+identifiers are pairwise distinct, `C19_enumerators_distinct`) the function
 returns the value of the first declared value named `n`, and fails for `nullptr`.  When the
 declared names are distinct (the front end rejects duplicates) this says: `fromName n = some v`
 iff `n` is a declared Emboss name with value `v` — nothing else maps, in particular not the
 `kCamelCase` spellings. -/
 theorem C19_from_name (d : Def) (g : Gen) (hgen : generate d = some g)
-    (hd : (g.enumerators.map (·.1)).Nodup) (hnames : (d.values.map (·.name)).Nodup) :
+    (hacc : d.backAccepts = true) (hnames : (d.values.map (·.name)).Nodup) :
     g.cppFromName g.enumerators none = none ∧
     (∀ n v, g.cppFromName g.enumerators (some n) = some v ↔ Spec.Declares d.declared n v) ∧
     (∀ n, (∀ v, ¬ Spec.Declares d.declared n v) → g.cppFromName g.enumerators (some n) = none) := by
+  have hd := enumerators_nodup_of_accepts d g hgen hacc
   obtain ⟨_, hne, he, hf, _, _⟩ := generate_spec d g hgen
   have hr : Resolves g.enumerators (namesOf d) d.values := by
     rw [he]; rw [he] at hd; exact resolves_of_nodup _ _ hd
@@ -104,9 +105,10 @@ theorem C19_from_name (d : Def) (g : Gen) (hgen : generate d = some g)
 /-- **`TryToGetNameFromEnum`** returns the first declared name having the value, and `nullptr`
 exactly for undeclared values. -/
 theorem C19_to_name_first (d : Def) (g : Gen) (hgen : generate d = some g)
-    (hd : (g.enumerators.map (·.1)).Nodup) (x : Int) :
+    (hacc : d.backAccepts = true) (x : Int) :
     (∀ n, g.cppToName g.enumerators x = some n ↔ Spec.FirstNameOf d.declared x n) ∧
     (g.cppToName g.enumerators x = none ↔ ¬ Spec.Known d.declared x) := by
+  have hd := enumerators_nodup_of_accepts d g hgen hacc
   obtain ⟨_, hne, he, _, ht, _⟩ := generate_spec d g hgen
   have hr : Resolves g.enumerators (namesOf d) d.values := by
     rw [he]; rw [he] at hd; exact resolves_of_nodup _ _ hd
@@ -133,8 +135,9 @@ theorem C19_to_name_first (d : Def) (g : Gen) (hgen : generate d = some g)
 
 /-- **`EnumIsKnown`** is true exactly for declared values. -/
 theorem C19_is_known_iff_declared (d : Def) (g : Gen) (hgen : generate d = some g)
-    (hd : (g.enumerators.map (·.1)).Nodup) (x : Int) :
+    (hacc : d.backAccepts = true) (x : Int) :
     g.cppIsKnown g.enumerators x = true ↔ Spec.Known d.declared x := by
+  have hd := enumerators_nodup_of_accepts d g hgen hacc
   obtain ⟨_, hne, he, _, _, hk⟩ := generate_spec d g hgen
   have hr : Resolves g.enumerators (namesOf d) d.values := by
     rw [he]; rw [he] at hd; exact resolves_of_nodup _ _ hd
@@ -166,9 +169,10 @@ theorem C19_is_known_iff_declared (d : Def) (g : Gen) (hgen : generate d = some 
 compile): every label resolves to an enumerator, and the label values are pairwise distinct.
 Rests on the `previously_seen_numeric_values` logic. -/
 theorem C19_switch_labels_distinct (d : Def) (g : Gen) (hgen : generate d = some g)
-    (hd : (g.enumerators.map (·.1)).Nodup) :
+    (hacc : d.backAccepts = true) :
     (g.labelValues g.enumerators).Nodup ∧ (∀ o ∈ g.labelValues g.enumerators, o.isSome = true) ∧
     g.known = g.toName.map (·.1) := by
+  have hd := enumerators_nodup_of_accepts d g hgen hacc
   obtain ⟨_, hne, he, _, ht, hk⟩ := generate_spec d g hgen
   have hr : Resolves g.enumerators (namesOf d) d.values := by
     rw [he]; rw [he] at hd; exact resolves_of_nodup _ _ hd
@@ -191,51 +195,73 @@ example : (generate exDef).map (·.known) = some exGen.known ∧ (exGen.enumerat
     exGen.cppFromName exGen.enumerators (some "kBc".toList) = none ∧
     exGen.cppToName exGen.enumerators 1 = some "AB_C".toList ∧
     exGen.cppToName exGen.enumerators 2 = none ∧
-    exGen.cppIsKnown exGen.enumerators (-128) = true := by decide
+    exGen.cppIsKnown exGen.enumerators (-128) = true ∧ exDef.backAccepts = true := by decide
 
-/-
-Full statement (false on the real code, see the counterexample below):
+/-- **Enumerator identifiers are pairwise distinct** for every enum the back end accepts (so
+the `enum class` body is well-formed).  Since `fix: dca9b37` the back end rejects an enum two of
+whose values would get the same C++ name ("Enum values 'A_1B' and 'A1B' would both be named
+'kA1b' in the generated C++ code."); the check is exact: it passes iff the identifiers are
+pairwise distinct. -/
+theorem C19_enumerators_distinct (d : Def) (g : Gen) (hgen : generate d = some g) :
+    (d.backAccepts = true → (g.enumerators.map (·.1)).Nodup) ∧
+    (d.namesDistinct = true ↔ (g.enumerators.map (·.1)).Nodup) :=
+  ⟨enumerators_nodup_of_accepts d g hgen, namesDistinct_iff d g hgen⟩
 
-  theorem C19_enumerators_distinct (d g) (hgen : generate d = some g)
-      (hnames : declared names distinct) (hshape : SHOUTY names) (hver : enum_case verified) :
-      (g.enumerators.map (·.1)).Nodup
-
-Proved fragment: with the extra hypothesis `hcamel` — the declared names stay pairwise
-distinct after `snake_to_camel` (which forgets underscores next to digits, doubled and
-trailing underscores). -/
-/-- **Enumerator identifiers are pairwise distinct** (so the `enum class` body, and hence the
-hypothesis `hd` of the theorems above, is well-formed) — partial: needs `hcamel`. -/
-theorem C19_enumerators_distinct_partial (d : Def) (g : Gen) (hgen : generate d = some g)
+/-- **The check rejects nothing but genuine case-conversion collisions**: an enum whose declared
+names are distinct SHOUTY names (the front end guarantees both), whose `enum_case` attributes
+are verified, and whose names stay pairwise distinct after `snake_to_camel` passes it. -/
+theorem C19_rejects_only_camel_collisions (d : Def) (g : Gen) (hgen : generate d = some g)
     (hnames : (d.values.map (·.name)).Nodup)
     (hshape : ∀ v ∈ d.values, ∃ c cs, v.name = c :: cs ∧ c ≠ 'k')
-    (hver : ∀ v ∈ d.values, ∀ t,
-      effectiveCase v.attrs (defaultsOf d.levels) = .cases t → verifyCases t = true)
+    (hver : d.attrsVerified = true)
     (hcamel : d.values.Pairwise (fun a b => snakeToCamel a.name ≠ snakeToCamel b.name)) :
-    (g.enumerators.map (·.1)).Nodup := by
+    d.backAccepts = true := by
+  simp only [Def.backAccepts, hver, Bool.true_and]
+  rw [namesDistinct_iff d g hgen]
   obtain ⟨_, _, he, _, _, _⟩ := generate_spec d g hgen
   rw [he]
   exact enumerator_names_nodup d hnames hshape
-    (fun v hv => spellings_nodup d v (hshape v hv) (hver v hv)) hcamel
+    (fun v hv => spellings_nodup d v (hshape v hv) (fun t ht => effective_verified d hver v hv t ht)) hcamel
 
-/-- Counterexample to the full statement (finding `enum-value-names-equal-after-camel-
-conversion`): `A_1B` and `A1B` are distinct SHOUTY names, the attribute is valid, the enum is
-accepted and generated — with the enumerator `kA1b` twice.  Replayed on the real code by
-`./check C19` (g++: redeclaration of 'kA1b'). -/
+/-- The former counterexample (finding `enum-value-names-equal-after-camel-conversion`, now
+fixed): `A_1B` and `A1B` are distinct SHOUTY names, the attribute is valid, the front end
+accepts — and the back end now rejects, because both would be `kA1b`.  Pinned in
+`corpus/C19/camel_collision_must_be_rejected.emb`; reverting the fix makes the module accepted
+with a header g++ refuses. -/
 def exCollide : Def :=
   { name := "Foo".toList, levels := [[⟨"cpp".toList, true, "kCamelCase".toList⟩]],
     values := [{ name := "A_1B".toList, value := 1 }, { name := "A1B".toList, value := 2 }] }
 
-theorem C19_enumerators_counterexample :
+theorem C19_collision_rejected :
     exCollide.frontAccepts = true ∧ (exCollide.values.map (·.name)).Nodup ∧
-    verifyCases "kCamelCase".toList = true ∧
+    exCollide.attrsVerified = true ∧
     (generate exCollide).map (fun g => g.enumerators.map (·.1)) =
-      some ["kA1b".toList, "kA1b".toList] := by decide
+      some ["kA1b".toList, "kA1b".toList] ∧
+    exCollide.backAccepts = false := by decide
 
-/-- Non-vacuity of `C19_enumerators_distinct_partial`: `exDef` meets every hypothesis. -/
-example : (exDef.values.map (·.name)).Nodup ∧
+/-- Non-vacuity: `exDef` is accepted by the back end and meets every hypothesis of
+`C19_rejects_only_camel_collisions`. -/
+example : exDef.backAccepts = true ∧ (exDef.values.map (·.name)).Nodup ∧
     (exDef.values.all (fun v => match v.name with | c :: _ => c != 'k' | [] => false)) = true ∧
-    verifyCases "kCamelCase, SHOUTY_CASE".toList = true ∧ verifyCases "SHOUTY_CASE".toList = true ∧
+    exDef.attrsVerified = true ∧
     exDef.values.Pairwise (fun a b => snakeToCamel a.name ≠ snakeToCamel b.name) := by decide
+
+/-- **`operator<<`** streams the first declared name of a declared value and the decimal
+number of any other value — whatever the underlying type (since `fix: 43666cd` the value is
+promoted with unary `+`, so 8-bit enums are no longer streamed as characters). -/
+theorem C19_ostream (d : Def) (g : Gen) (hgen : generate d = some g) (hacc : d.backAccepts = true)
+    (x : Int) :
+    (∀ n, Spec.FirstNameOf d.declared x n → g.cppShow g.enumerators x = .name n) ∧
+    (¬ Spec.Known d.declared x → g.cppShow g.enumerators x = .number x) := by
+  obtain ⟨h1, h2⟩ := C19_to_name_first d g hgen hacc x
+  constructor
+  · intro n hn
+    simp [Gen.cppShow, (h1 n).mpr hn]
+  · intro hk
+    simp [Gen.cppShow, h2.mpr hk]
+
+example : exGen.cppShow exGen.enumerators 1 = .name "AB_C".toList ∧
+    exGen.cppShow exGen.enumerators 65 = .number 65 := by decide
 
 /-- **`$default` precedence** (doc/language-reference.md: "a `$default` enum case can be set on
 a module, struct, bits, or enum and applies to all enum values within"): an attribute on the
@@ -260,10 +286,11 @@ Full statement (false on the real code):
       viewCouldWrite ty bvt w v = true ↔ Spec.FieldRange ty.signed w v
       ∧ viewRead ty raw = Spec.FieldValue ty.signed w raw
 
-Proved fragment: unsigned enums (any field width).  Missing: signed enums; for them the
-statement is false whenever the field is narrower than the underlying type or than its
-`bits` container (counterexample below, finding
-`signed-enum-in-field-narrower-than-underlying-type`). -/
+Proved fragments: unsigned enums (any field width), and signed enums whose field is as wide as
+the underlying type (in any container, since `fix: f572d62`).  Missing: signed enums in a field
+*narrower* than the underlying type; for them the statement is false (counterexample below,
+finding `signed-enum-in-field-narrower-than-underlying-type`, still open: the repair was
+rejected because `runtime/cpp/test/emboss_enum_view_test.cc:156` pins the zero-extension). -/
 /-- **Enum fields accept any in-range value, named or not** — partial: unsigned enums.
 `w` = field width, `bvt` = width of the unsigned integer the field's bits are read into
 (`BitViewType::ValueType`), `ty` = the enum's underlying type. -/
@@ -272,14 +299,20 @@ theorem C19_field_accepts_in_range_partial (ty : IntTy) (bvt w : Nat) (v : Int) 
     (hv : ty.holds v = true) (hraw : (raw : Int) < pow2 w) :
     (viewCouldWrite ty bvt w v = true ↔ Spec.FieldRange false w v) ∧
     viewRead ty raw = Spec.FieldValue false w raw ∧
-    (Spec.FieldRange false w v → (viewWriteBits bvt w v : Int) = v) := by
+    (Spec.FieldRange false w v → (viewWriteBits ty bvt w v : Int) = v) := by
   have pw := pow2_pos w
   have pb := pow2_pos bvt
   have mwb : pow2 w ≤ pow2 bvt := pow2_mono hwb
   have mwt : pow2 w ≤ pow2 ty.bits := pow2_mono hwt
   have hv' : 0 ≤ v ∧ v ≤ pow2 ty.bits - 1 := by
     simpa [IntTy.holds, IntTy.minVal, IntTy.maxVal, hu] using hv
-  have hwrapB : wrap ⟨false, bvt⟩ v = v % pow2 bvt := by simp [wrap]
+  have hU : wrap ⟨false, ty.bits⟩ v = v := by
+    simp only [wrap, Bool.false_and, Bool.false_eq_true, if_false]
+    exact Int.emod_eq_of_lt hv'.1 (by omega)
+  have hwrapB : toBitViewValue ty bvt v = v % pow2 bvt := by
+    unfold toBitViewValue
+    rw [hU]
+    simp [wrap]
   have hwrapT : ∀ x, wrap ty x = x % pow2 ty.bits := by intro x; simp [wrap, hu]
   have hmod_nonneg := Int.emod_nonneg v (Int.ne_of_gt pb)
   have hmod_lt := Int.emod_lt_of_pos v pb
@@ -320,24 +353,31 @@ example : (⟨false, 8⟩ : IntTy).holds 5 = true ∧ viewCouldWrite ⟨false, 8
     viewCouldWrite ⟨false, 8⟩ 8 3 8 = false ∧ viewRead ⟨false, 8⟩ 7 = 7 := by decide
 
 /-- Second proved fragment of the field clause: a signed enum whose field is as wide as its
-underlying type *and* as its container (`w = bits(ValueType) = bits(BitViewType::ValueType)`,
-e.g. an `int8_t` enum in a one-byte `struct` field) accepts exactly the values of its type and
-reads two's complement. -/
-theorem C19_field_signed_full_width_partial (ty : IntTy) (v : Int) (raw : Nat)
-    (hs : ty.signed = true) (hb : 0 < ty.bits) (hv : ty.holds v = true)
+underlying type — in a container (`BitViewType::ValueType`, `bvt` bits) of the same width (an
+`int8_t` enum in a one-byte `struct` field) *or wider* (an 8-bit field of a 16-bit `bits`;
+since `fix: f572d62`) — accepts exactly the values of its type, stores their two's-complement
+bits in the field and nothing above it, and reads two's complement. -/
+theorem C19_field_signed_full_width_partial (ty : IntTy) (bvt : Nat) (v : Int) (raw : Nat)
+    (hs : ty.signed = true) (hb : 0 < ty.bits) (hbv : ty.bits ≤ bvt) (hv : ty.holds v = true)
     (hraw : (raw : Int) < pow2 ty.bits) :
-    viewCouldWrite ty ty.bits ty.bits v = true ∧ Spec.FieldRange true ty.bits v ∧
+    viewCouldWrite ty bvt ty.bits v = true ∧ Spec.FieldRange true ty.bits v ∧
+    (viewWriteBits ty bvt ty.bits v : Int) = v % pow2 ty.bits ∧
     viewRead ty raw = Spec.FieldValue true ty.bits raw := by
   have hp := pow2_pos ty.bits
+  have mb : pow2 ty.bits ≤ pow2 bvt := pow2_mono hbv
   have hh : pow2 ty.bits = 2 * pow2 (ty.bits - 1) := by
     have : ty.bits = (ty.bits - 1) + 1 := by omega
     rw [this, pow2_succ]; simp
   have hv' : -(pow2 (ty.bits - 1)) ≤ v ∧ v ≤ pow2 (ty.bits - 1) - 1 := by
     simpa [IntTy.holds, IntTy.minVal, IntTy.maxVal, hs] using hv
-  refine ⟨?_, ?_, ?_⟩
-  · simp only [viewCouldWrite, decide_true, Bool.true_or, Bool.and_true, decide_eq_true_eq]
-    have hB : wrap ⟨false, ty.bits⟩ v = v % pow2 ty.bits := by simp [wrap]
-    rw [hB]
+  have hm0 := Int.emod_nonneg v (Int.ne_of_gt hp)
+  have hm1 := Int.emod_lt_of_pos v hp
+  have hB : toBitViewValue ty bvt v = v % pow2 ty.bits := by
+    simp only [toBitViewValue, wrap, Bool.false_and, Bool.false_eq_true, if_false]
+    exact Int.emod_eq_of_lt hm0 (by omega)
+  refine ⟨?_, ?_, ?_, ?_⟩
+  · simp only [viewCouldWrite, hB, Bool.and_eq_true, Bool.or_eq_true, decide_eq_true_eq]
+    refine ⟨?_, Or.inr hm1⟩
     by_cases h0 : 0 ≤ v
     · rw [Int.emod_eq_of_lt h0 (by omega)]
       exact (wrap_of_holds ty v hb hv).symm
@@ -352,6 +392,9 @@ theorem C19_field_signed_full_width_partial (ty : IntTy) (v : Int) (raw : Nat)
   · simp only [Spec.FieldRange, if_true]
     show -(pow2 (ty.bits - 1)) ≤ v ∧ v < pow2 (ty.bits - 1)
     omega
+  · simp only [viewWriteBits, hB]
+    rw [Int.emod_emod_of_dvd _ (Int.dvd_refl _)]
+    omega
   · simp only [viewRead, wrap, hs, Bool.true_and, decide_eq_true_eq, Spec.FieldValue, true_and]
     have e : (raw : Int) % pow2 ty.bits = raw := Int.emod_eq_of_lt (by omega) hraw
     rw [e]
@@ -359,17 +402,67 @@ theorem C19_field_signed_full_width_partial (ty : IntTy) (v : Int) (raw : Nat)
     rfl
 
 example : (⟨true, 8⟩ : IntTy).holds (-1) = true ∧ viewCouldWrite ⟨true, 8⟩ 8 8 (-1) = true ∧
+    viewCouldWrite ⟨true, 8⟩ 16 8 (-1) = true ∧ viewWriteBits ⟨true, 8⟩ 16 8 (-1) = 255 ∧
     viewRead ⟨true, 8⟩ 255 = -1 := by decide
 
+/-- **Enum fields accept any in-range value through the text format too** (`UpdateFromText`
+with the decimal number — which is what `WriteToString` emits for an unnamed value): for an
+unsigned enum every value of the field's range, up to `2^64 - 1`, is accepted and stored
+exactly; for a signed enum in a full-width field every value of the type, down to `-2^63`. -/
+theorem C19_field_text_number_partial (ty : IntTy) (bvt w : Nat) (v : Int)
+    (hb0 : 0 < ty.bits) (hb64 : ty.bits ≤ 64) (hv : ty.holds v = true) :
+    (ty.signed = false → 1 ≤ w → w ≤ bvt → w ≤ ty.bits → Spec.FieldRange false w v →
+      viewReadTextNumber ty bvt w v = some v.toNat) ∧
+    (ty.signed = true → ty.bits ≤ bvt →
+      viewReadTextNumber ty bvt ty.bits v = some (v % pow2 ty.bits).toNat) := by
+  have hwrap : wrap ty v = v := wrap_of_holds ty v hb0 hv
+  have m64 : pow2 ty.bits ≤ pow2 64 := pow2_mono hb64
+  have m63 : pow2 (ty.bits - 1) ≤ pow2 63 := pow2_mono (by omega)
+  have p1 := pow2_pos (ty.bits - 1)
+  have hh : pow2 ty.bits = 2 * pow2 (ty.bits - 1) := by
+    have : ty.bits = (ty.bits - 1) + 1 := by omega
+    rw [this, pow2_succ]; simp
+  have hh64 : pow2 64 = 2 * pow2 63 := by rw [pow2_63, pow2_64]; decide
+  constructor
+  · intro hu hw1 hwb hwt hr
+    have hv' : 0 ≤ v ∧ v ≤ pow2 ty.bits - 1 := by
+      simpa [IntTy.holds, IntTy.minVal, IntTy.maxVal, hu] using hv
+    have hraw : ((0 : Nat) : Int) < pow2 w := pow2_pos w
+    obtain ⟨h1, _, h3⟩ := C19_field_accepts_in_range_partial ty bvt w v 0 hu hw1 hwb hwt hv hraw
+    have hdec : (if 0 ≤ v then decide (v < pow2 64) else decide (-(pow2 63) ≤ v)) = true := by
+      simp only [hv'.1, if_true, decide_eq_true_eq]; omega
+    simp only [viewReadTextNumber, hdec, if_true, hwrap, h1.mpr hr]
+    have := h3 hr
+    congr 1
+    omega
+  · intro hs hbv
+    have hv' : -(pow2 (ty.bits - 1)) ≤ v ∧ v ≤ pow2 (ty.bits - 1) - 1 := by
+      simpa [IntTy.holds, IntTy.minVal, IntTy.maxVal, hs] using hv
+    have hraw : ((0 : Nat) : Int) < pow2 ty.bits := pow2_pos ty.bits
+    obtain ⟨h1, _, h3, _⟩ := C19_field_signed_full_width_partial ty bvt v 0 hs hb0 hbv hv hraw
+    have hdec : (if 0 ≤ v then decide (v < pow2 64) else decide (-(pow2 63) ≤ v)) = true := by
+      by_cases h0 : 0 ≤ v
+      · simp only [h0, if_true, decide_eq_true_eq]; omega
+      · simp only [h0, if_false, decide_eq_true_eq]; omega
+    simp only [viewReadTextNumber, hdec, if_true, hwrap, h1]
+    congr 1
+    omega
+
+/-- Non-vacuity / the boundary the text reader must get right: `2^64 - 1` and `2^63` of an
+unsigned 64-bit enum, `-2^63` of a signed one (tests by evaluation). -/
+example : viewReadTextNumber ⟨false, 64⟩ 64 64 18446744073709551615 = some 18446744073709551615 ∧
+    viewReadTextNumber ⟨false, 64⟩ 64 64 9223372036854775808 = some 9223372036854775808 ∧
+    viewReadTextNumber ⟨true, 64⟩ 64 64 (-9223372036854775808) = some 9223372036854775808 ∧
+    viewReadTextNumber ⟨false, 64⟩ 64 64 18446744073709551616 = none ∧
+    viewReadTextNumber ⟨false, 8⟩ 8 3 8 = none := by decide
+
 /-- Counterexample for signed enums (finding `signed-enum-in-field-narrower-than-underlying-
-type`, F14): `[maximum_bits: 8] [is_signed: true] NEG = -1` in a 4-bit field of an 8-bit
+type`, F14, open): `[maximum_bits: 8] [is_signed: true] NEG = -1` in a 4-bit field of an 8-bit
 `bits`: the raw bits `0xF` (two's-complement −1 in 4 bits) read as 15, `NEG` cannot be
-written, and 15 — outside the 4-bit signed range — can.  Also with a full-width field inside
-a wider container (8-bit field in a 16-bit `bits`) `NEG` cannot be written. -/
+written, and 15 — outside the 4-bit signed range — can. -/
 theorem C19_field_counterexample :
     viewRead ⟨true, 8⟩ 15 = 15 ∧ Spec.FieldValue true 4 15 = -1 ∧
     viewCouldWrite ⟨true, 8⟩ 8 4 (-1) = false ∧ Spec.FieldRange true 4 (-1) ∧
-    viewCouldWrite ⟨true, 8⟩ 8 4 15 = true ∧ ¬ Spec.FieldRange true 4 15 ∧
-    viewCouldWrite ⟨true, 8⟩ 16 8 (-1) = false ∧ Spec.FieldRange true 8 (-1) := by decide
+    viewCouldWrite ⟨true, 8⟩ 8 4 15 = true ∧ ¬ Spec.FieldRange true 4 15 := by decide
 
 end Emboss.Enum
